@@ -16,19 +16,23 @@ import (
 // interpreter handling). Built once per loaded tree.
 
 type opsForm struct {
-	name     string          // "prefix" | "infix" | "assign"
-	pNode    *types.TypeName // parser/ast node struct
-	aNode    *types.TypeName // analyzer/ast node struct
-	pOp      *Enum           // operator enum of the parser node
-	aOp      *Enum           // operator enum of the analyzed node (may be the same type)
-	anaFn    *ast.FuncDecl
-	intFn    *ast.FuncDecl
-	nodeK    *types.Const            // Kind() of the analyzed node
-	admit    map[[2]string]*opsCell  // (TypeKind name, pOp name)
-	interp   map[[2]string]*opsCell  // (interpreter ValueKind name, aOp name)
-	lower    map[string]*opsCell     // aOp name -> compiler paths
-	opMap    map[string]*types.Const // pOp name -> aOp const (identity unless the analyzer translates)
-	opMapWhy map[string]string
+	name  string          // "prefix" | "infix" | "assign"
+	pNode *types.TypeName // parser/ast node struct
+	aNode *types.TypeName // analyzer/ast node struct
+	pOp   *Enum           // operator enum of the parser node
+	aOp   *Enum           // operator enum of the analyzed node (may be the same type)
+	anaFn *ast.FuncDecl
+	intFn *ast.FuncDecl
+	// the engine has no method of its own for this node (inlined into the dispatcher):
+	// anaFn / intFn is the dispatcher over the expression interface, walked under node.Kind() == the node's kind
+	anaDisp, intDisp bool
+	pNodeK           *types.Const            // Kind() of the parser node
+	nodeK            *types.Const            // Kind() of the analyzed node
+	admit            map[[2]string]*opsCell  // (TypeKind name, pOp name)
+	interp           map[[2]string]*opsCell  // (interpreter ValueKind name, aOp name)
+	lower            map[string]*opsCell     // aOp name -> compiler paths
+	opMap            map[string]*types.Const // pOp name -> aOp const (identity unless the analyzer translates)
+	opMapWhy         map[string]string
 }
 
 type opsCell struct {
@@ -53,7 +57,14 @@ type opsModel struct {
 	vmParam                           types.Object
 	exprKindA                         *Enum
 	pops                              map[*types.Func]bool
-	errFns                            map[*types.Func]bool
+	popping                           map[*types.Func]bool        // functions of the VM package that (transitively) pop
+	errFns                            map[*types.Func]bool        // functions that unconditionally report an error diagnostic
+	errSpecs                          map[*types.Func]*opsErrSpec // reporter summaries (rules_ops_reporters.go)
+	diagCtors                         map[*types.Func]*opsRepVal  // functions returning a diagnostic of a constant / parameter level
+	errLevel                          *types.Const                // the error level of the diagnostic struct
+	levelT                            *types.TypeName             // its enum type
+	diagTs                            map[*types.TypeName]bool    // the diagnostic struct(s)
+	diagFields                        map[*types.Var]bool         // the Analyzer's diagnostic lists
 	vmCases                           map[string]bool
 	vmMemo                            map[[2]string]*opsCell
 	popRole                           map[int]int // VM pop ordinal -> operand role (1 left, 2 right), from the compiler's push order
@@ -120,12 +131,14 @@ func (m *opsModel) enumOfMethod(rel, typ, method string) *Enum {
 }
 
 // methodWithParam: the method of recv (in package rel) that has exactly one
-// parameter, of type pt.
+// parameter, of type pt. When several methods qualify (a helper with the same
+// signature was split off), the entry is the one no other candidate calls.
 func (m *opsModel) methodWithParam(rel string, recv *types.TypeName, pt types.Type) *ast.FuncDecl {
 	p := m.c.Pkg(rel)
+	var cands []*ast.FuncDecl
 	for _, fd := range AllFuncDecls(p) {
 		fn, _ := p.TypesInfo.Defs[fd.Name].(*types.Func)
-		if fn == nil {
+		if fn == nil || fd.Body == nil {
 			continue
 		}
 		sig := fn.Type().(*types.Signature)
@@ -133,10 +146,66 @@ func (m *opsModel) methodWithParam(rel string, recv *types.TypeName, pt types.Ty
 			continue
 		}
 		if types.Identical(sig.Params().At(0).Type(), pt) {
-			return fd
+			cands = append(cands, fd)
 		}
 	}
-	return nil
+	return m.entryAmong(p.TypesInfo, cands)
+}
+
+// entryAmong: the candidate that is not called (directly or through other
+// functions of the package) by another candidate; the first in source order
+// when that does not single one out.
+func (m *opsModel) entryAmong(info *types.Info, cands []*ast.FuncDecl) *ast.FuncDecl {
+	if len(cands) <= 1 {
+		if len(cands) == 1 {
+			return cands[0]
+		}
+		return nil
+	}
+	isCand := map[*types.Func]*ast.FuncDecl{}
+	for _, fd := range cands {
+		if fn, ok := info.Defs[fd.Name].(*types.Func); ok {
+			isCand[fn] = fd
+		}
+	}
+	called := map[*ast.FuncDecl]bool{}
+	for _, fd := range cands {
+		seen := map[*types.Func]bool{}
+		var visit func(body *ast.BlockStmt, depth int)
+		visit = func(body *ast.BlockStmt, depth int) {
+			ast.Inspect(body, func(n ast.Node) bool {
+				call, ok := n.(*ast.CallExpr)
+				if !ok {
+					return true
+				}
+				cal := CalleeOf(m.g.info(body), call)
+				if cal == nil || seen[cal] {
+					return true
+				}
+				seen[cal] = true
+				if other := isCand[cal]; other != nil && other != fd {
+					called[other] = true
+				}
+				if cd := m.g.decls[cal]; cd != nil && depth < 3 && isCand[cal] == nil {
+					if fnObj, ok := info.Defs[fd.Name].(*types.Func); ok && cal.Pkg() == fnObj.Pkg() {
+						visit(cd.Body, depth+1)
+					}
+				}
+				return true
+			})
+		}
+		visit(fd.Body, 0)
+	}
+	var roots []*ast.FuncDecl
+	for _, fd := range cands {
+		if !called[fd] {
+			roots = append(roots, fd)
+		}
+	}
+	if len(roots) >= 1 {
+		return roots[0]
+	}
+	return cands[0]
 }
 
 func opsEnumField(c *Ctx, tn *types.TypeName) *Enum {
@@ -160,7 +229,7 @@ func opsEnumField(c *Ctx, tn *types.TypeName) *Enum {
 
 func buildOpsModel(c *Ctx) *opsModel {
 	m := &opsModel{c: c, g: newOpsEng(c), vk2tk: map[string]*types.Const{}, sym: map[*types.Const]string{}, aop2iop: map[string]*types.Const{},
-		pops: map[*types.Func]bool{}, errFns: map[*types.Func]bool{}, vmCases: map[string]bool{}, vmMemo: map[[2]string]*opsCell{}, popRole: map[int]int{}}
+		pops: map[*types.Func]bool{}, errFns: map[*types.Func]bool{}, errSpecs: map[*types.Func]*opsErrSpec{}, diagCtors: map[*types.Func]*opsRepVal{}, diagTs: map[*types.TypeName]bool{}, diagFields: map[*types.Var]bool{}, vmCases: map[string]bool{}, vmMemo: map[[2]string]*opsCell{}, popRole: map[int]int{}}
 	g := m.g
 	const (
 		pAstRel = "homescript/parser/ast"
@@ -184,6 +253,9 @@ func buildOpsModel(c *Ctx) *opsModel {
 	m.rvk = m.enumOfMethod(rvRel, "Value", "Kind")
 	m.ivk = m.enumOfMethod(ivRel, "Value", "Kind")
 	m.opcode = m.enumOfMethod(cmpRel, "Instruction", "Opcode")
+	if m.opcode != nil {
+		g.opcodeT = m.opcode.Type.Obj()
+	}
 	m.exprKindA = m.enumOfMethod(aAstRel, "AnalyzedExpression", "Kind")
 	m.anaRecv = opsLookupType(c, anaRel, "Analyzer")
 	m.cmpRecv = opsLookupType(c, cmpRel, "Compiler")
@@ -212,6 +284,17 @@ func buildOpsModel(c *Ctx) *opsModel {
 		fm.anaFn = m.methodWithParam(anaRel, m.anaRecv, fm.pNode.Type())
 		fm.intFn = m.methodWithParam(intRel, m.intRecv, fm.aNode.Type())
 		fm.nodeK = g.kindOf(fm.aNode)
+		fm.pNodeK = g.kindOf(fm.pNode)
+		if fm.anaFn == nil && fm.pNodeK != nil {
+			if fm.anaFn = m.methodWithParam(anaRel, m.anaRecv, pExpr.Type()); fm.anaFn != nil {
+				fm.anaDisp = true
+			}
+		}
+		if fm.intFn == nil && fm.nodeK != nil {
+			if fm.intFn = m.methodWithParam(intRel, m.intRecv, aExpr.Type()); fm.intFn != nil {
+				fm.intDisp = true
+			}
+		}
 		if fm.anaFn == nil {
 			m.failf("anchor unresolved: the Analyzer method taking a %s", fm.pNode.Name())
 		}
@@ -228,16 +311,29 @@ func buildOpsModel(c *Ctx) *opsModel {
 		m.trigger[fm.pOp.Type.Obj()] = true
 		m.trigger[fm.aOp.Type.Obj()] = true
 	}
+	// a helper that receives an opcode (emit helper, handler family) is walked into as well
+	m.trigger[m.opcode.Type.Obj()] = true
 	m.cmpEntry = m.methodWithParam(cmpRel, m.cmpRecv, aExpr.Type())
 	if m.cmpEntry == nil {
 		m.failf("anchor unresolved: the Compiler method compiling an AnalyzedExpression")
 	}
-	// VM entry: the Core method with an Instruction parameter
+	// VM entry: the Core method with an Instruction parameter (the one the other such methods are helpers of).
+	// pop: a nullary Core method that returns the top of the operand stack (the slice field of Core whose
+	// elements are value pointers) and re-slices that field.
 	{
 		p := c.Pkg(vmRel)
+		valueIf := opsLookupType(c, rvRel, "Value")
+		isStackField := func(v *types.Var) bool {
+			sl, ok := types.Unalias(v.Type()).(*types.Slice)
+			if !ok {
+				return false
+			}
+			return valueIf != nil && opsTypeName(sl.Elem()) == valueIf
+		}
+		var cands []*ast.FuncDecl
 		for _, fd := range AllFuncDecls(p) {
 			fn, _ := p.TypesInfo.Defs[fd.Name].(*types.Func)
-			if fn == nil {
+			if fn == nil || fd.Body == nil {
 				continue
 			}
 			sig := fn.Type().(*types.Signature)
@@ -246,53 +342,127 @@ func buildOpsModel(c *Ctx) *opsModel {
 			}
 			for i := 0; i < sig.Params().Len(); i++ {
 				if opsTypeName(sig.Params().At(i).Type()) == g.instrIf && g.instrIf != nil {
-					m.vmEntry = fd
+					cands = append(cands, fd)
+					break
+				}
+			}
+			if sig.Params().Len() == 0 && sig.Results().Len() == 1 && valueIf != nil && opsTypeName(sig.Results().At(0).Type()) == valueIf {
+				shrinks := false
+				ast.Inspect(fd.Body, func(n ast.Node) bool {
+					as, ok := n.(*ast.AssignStmt)
+					if !ok || len(as.Lhs) != 1 || len(as.Rhs) != 1 {
+						return true
+					}
+					lsel, ok := ast.Unparen(as.Lhs[0]).(*ast.SelectorExpr)
+					if !ok {
+						return true
+					}
+					ls := p.TypesInfo.Selections[lsel]
+					if ls == nil || ls.Kind() != types.FieldVal {
+						return true
+					}
+					f, _ := ls.Obj().(*types.Var)
+					if f == nil || !isStackField(f) {
+						return true
+					}
+					if sx, ok := ast.Unparen(as.Rhs[0]).(*ast.SliceExpr); ok {
+						if rsel, ok := ast.Unparen(sx.X).(*ast.SelectorExpr); ok {
+							if rs := p.TypesInfo.Selections[rsel]; rs != nil && rs.Obj() == f {
+								shrinks = true
+							}
+						}
+					}
+					return true
+				})
+				if shrinks {
+					m.pops[fn] = true
+				}
+			}
+		}
+		m.vmEntry = m.entryAmong(p.TypesInfo, cands)
+		if m.vmEntry == nil {
+			m.failf("anchor unresolved: the Core method executing a compiler.Instruction")
+		} else {
+			fn := p.TypesInfo.Defs[m.vmEntry.Name].(*types.Func)
+			sig := fn.Type().(*types.Signature)
+			for i := 0; i < sig.Params().Len(); i++ {
+				if opsTypeName(sig.Params().At(i).Type()) == g.instrIf {
 					m.vmParam = sig.Params().At(i)
 				}
 			}
-			// pop: nullary, returns a pointer, shrinks a slice field of the receiver
-			if sig.Params().Len() == 0 && sig.Results().Len() == 1 {
-				if _, isPtr := sig.Results().At(0).Type().(*types.Pointer); isPtr {
-					shrinks := false
-					ast.Inspect(fd.Body, func(n ast.Node) bool {
-						if as, ok := n.(*ast.AssignStmt); ok && len(as.Lhs) == 1 && len(as.Rhs) == 1 {
-							if _, ok := as.Lhs[0].(*ast.SelectorExpr); ok {
-								if _, ok := as.Rhs[0].(*ast.SliceExpr); ok {
-									shrinks = true
-								}
-							}
-						}
-						return true
-					})
-					if shrinks {
-						m.pops[fn] = true
-					}
-				}
-			}
-		}
-		if m.vmEntry == nil {
-			m.failf("anchor unresolved: the Core method executing a compiler.Instruction")
 		}
 		if len(m.pops) == 0 {
 			m.failf("anchor unresolved: the Core method popping the operand stack")
+		}
+		// helpers that pop (directly or through other functions of the package): always walked into
+		m.popping = map[*types.Func]bool{}
+		for fn := range m.pops {
+			m.popping[fn] = true
+		}
+		for changed := true; changed; {
+			changed = false
+			for _, fd := range AllFuncDecls(p) {
+				fn, _ := p.TypesInfo.Defs[fd.Name].(*types.Func)
+				if fn == nil || fd.Body == nil || m.popping[fn] {
+					continue
+				}
+				ast.Inspect(fd.Body, func(n ast.Node) bool {
+					if call, ok := n.(*ast.CallExpr); ok {
+						if cal := CalleeOf(p.TypesInfo, call); cal != nil && m.popping[cal] {
+							m.popping[fn] = true
+							changed = true
+							return false
+						}
+					}
+					return !m.popping[fn]
+				})
+			}
 		}
 	}
 	if len(m.fatal) > 0 {
 		return m
 	}
-	// explicit VM cases
+	// opcodes the VM dispatches on: constants of the opcode enum compared with (case clause, ==, table key)
+	// in the entry or in the functions of the package it reaches
 	{
-		info := g.info(m.vmEntry)
-		ast.Inspect(m.vmEntry.Body, func(n ast.Node) bool {
-			if cc, ok := n.(*ast.CaseClause); ok {
-				for _, e := range cc.List {
-					if k := ConstOf(info, e); k != nil && g.enumTypeOf(k) == m.opcode.Type.Obj() {
-						m.vmCases[k.Name()] = true
-					}
+		p := c.Pkg(vmRel)
+		seen := map[*ast.FuncDecl]bool{}
+		var visit func(fd *ast.FuncDecl, depth int)
+		visit = func(fd *ast.FuncDecl, depth int) {
+			if fd == nil || fd.Body == nil || seen[fd] {
+				return
+			}
+			seen[fd] = true
+			info := g.info(fd)
+			note := func(e ast.Expr) {
+				if k := ConstOf(info, e); k != nil && g.enumTypeOf(k) == m.opcode.Type.Obj() {
+					m.vmCases[k.Name()] = true
 				}
 			}
-			return true
-		})
+			ast.Inspect(fd.Body, func(n ast.Node) bool {
+				switch x := n.(type) {
+				case *ast.CaseClause:
+					for _, e := range x.List {
+						note(e)
+					}
+				case *ast.BinaryExpr:
+					if x.Op == token.EQL || x.Op == token.NEQ {
+						note(x.X)
+						note(x.Y)
+					}
+				case *ast.KeyValueExpr:
+					note(x.Key)
+				case *ast.CallExpr:
+					if cal := CalleeOf(info, x); cal != nil && depth < 3 {
+						if cd := g.decls[cal]; cd != nil && cal.Pkg() == p.Types {
+							visit(cd, depth+1)
+						}
+					}
+				}
+				return true
+			})
+		}
+		visit(m.vmEntry, 0)
 	}
 	m.findErrReporters(anaRel)
 	m.extractEnumMethods()
@@ -302,72 +472,6 @@ func buildOpsModel(c *Ctx) *opsModel {
 	return m
 }
 
-// findErrReporters: Analyzer methods that append a diagnostic of level Error,
-// closed under "unconditionally calls a reporter".
-func (m *opsModel) findErrReporters(anaRel string) {
-	p := m.c.Pkg(anaRel)
-	info := p.TypesInfo
-	for _, fd := range AllFuncDecls(p) {
-		fn, _ := info.Defs[fd.Name].(*types.Func)
-		if fn == nil {
-			continue
-		}
-		hit := false
-		ast.Inspect(fd.Body, func(n ast.Node) bool {
-			cl, ok := n.(*ast.CompositeLit)
-			if !ok {
-				return true
-			}
-			tn := opsTypeName(info.TypeOf(cl))
-			if tn == nil || tn.Name() != "Diagnostic" {
-				return true
-			}
-			for _, el := range cl.Elts {
-				if kv, ok := el.(*ast.KeyValueExpr); ok {
-					if k := ConstOf(info, kv.Value); k != nil && k.Name() == "DiagnosticLevelError" {
-						hit = true
-					}
-				}
-			}
-			return true
-		})
-		// only functions whose every statement-level path builds it: the body is a single append
-		if hit && len(fd.Body.List) == 1 {
-			m.errFns[fn] = true
-		}
-	}
-	if len(m.errFns) == 0 {
-		m.failf("anchor unresolved: the Analyzer's error-diagnostic reporter")
-		return
-	}
-	for changed := true; changed; {
-		changed = false
-		for _, fd := range AllFuncDecls(p) {
-			fn, _ := info.Defs[fd.Name].(*types.Func)
-			if fn == nil || m.errFns[fn] {
-				continue
-			}
-		stmts:
-			for _, s := range fd.Body.List {
-				switch x := s.(type) {
-				case *ast.ExprStmt:
-					if call, ok := x.X.(*ast.CallExpr); ok {
-						if cal := CalleeOf(info, call); cal != nil && m.errFns[cal] {
-							m.errFns[fn] = true
-							changed = true
-							break stmts
-						}
-					}
-				case *ast.AssignStmt, *ast.DeclStmt, *ast.IncDecStmt:
-				default:
-					// control flow before the call: the call is not unconditional
-					break stmts
-				}
-			}
-		}
-	}
-}
-
 // evalEnumMethod walks a nullary method of an enum type with the receiver
 // bound to k and returns its unique return value.
 func (m *opsModel) evalEnumMethod(fd *ast.FuncDecl, k *types.Const) (opsVal, string) {
@@ -375,7 +479,7 @@ func (m *opsModel) evalEnumMethod(fd *ast.FuncDecl, k *types.Const) (opsVal, str
 	if fd.Recv == nil || len(fd.Recv.List[0].Names) == 0 {
 		return opsVal{}, "no receiver name"
 	}
-	cfg := &opsCfg{g: m.g, maxDepth: 2, nodeDims: map[*types.TypeName]*types.Const{}, opndDims: map[*types.TypeName]*types.Const{}}
+	cfg := &opsCfg{g: m.g, maxDepth: 3, nodeDims: map[*types.TypeName]*types.Const{}, opndDims: map[*types.TypeName]*types.Const{}}
 	paths, ok := m.g.walk(cfg, fd, map[types.Object]opsVal{info.Defs[fd.Recv.List[0].Names[0]]: {k: ovConst, c: k}}, 0, 0)
 	if !ok {
 		return opsVal{}, "path overflow"
@@ -517,11 +621,17 @@ func (m *opsModel) extractAnalyzer() {
 		node := m.paramObj(fm.anaFn, 0)
 		for _, tk := range m.typeKind.Consts {
 			for _, op := range fm.pOp.Consts {
-				cfg := &opsCfg{g: m.g, recv: m.anaRecv, maxDepth: 3, trigger: m.trigger, primaryOnly: true,
+				cfg := &opsCfg{g: m.g, recv: m.anaRecv, maxDepth: 5, trigger: m.trigger, primaryOnly: true,
 					nodeDims: map[*types.TypeName]*types.Const{fm.pOp.Type.Obj(): op},
 					opndDims: map[*types.TypeName]*types.Const{m.typeKind.Type.Obj(): tk},
-					isErr:    func(f *types.Func) bool { return m.errFns[f] }}
-				paths, ok := m.g.walk(cfg, fm.anaFn, map[types.Object]opsVal{node: {k: ovNode, nodeT: fm.pNode.Type()}}, 0, 0)
+					isErr:    m.isErrCall, diag: m}
+				nodeT := fm.pNode.Type()
+				if fm.anaDisp {
+					nodeT = m.g.exprIfs[0].Type()
+					cfg.nodeDims[m.g.enumTypeOf(fm.pNodeK)] = fm.pNodeK
+					cfg.maxDepth++
+				}
+				paths, ok := m.g.walk(cfg, fm.anaFn, map[types.Object]opsVal{node: {k: ovNode, nodeT: nodeT}}, 0, 0)
 				fm.admit[[2]string{tk.Name(), op.Name()}] = &opsCell{paths: paths, ok: ok, pos: fm.anaFn.Pos()}
 				// operator translation parser -> analyzed node (field of the returned literal)
 				if ok && fm.pOp.Type != fm.aOp.Type {
@@ -583,7 +693,7 @@ func (m *opsModel) extractCompiler() {
 	aExpr := m.g.exprIfs[1]
 	for _, fm := range m.forms {
 		for _, op := range fm.aOp.Consts {
-			cfg := &opsCfg{g: m.g, recv: m.cmpRecv, maxDepth: 4, trigger: m.trigger,
+			cfg := &opsCfg{g: m.g, recv: m.cmpRecv, maxDepth: 6, trigger: m.trigger,
 				nodeDims: map[*types.TypeName]*types.Const{fm.aOp.Type.Obj(): op, m.exprKindA.Type.Obj(): fm.nodeK},
 				opndDims: map[*types.TypeName]*types.Const{}}
 			paths, ok := m.g.walk(cfg, m.cmpEntry, map[types.Object]opsVal{node: {k: ovNode, nodeT: aExpr.Type()}}, 0, 0)
@@ -679,10 +789,11 @@ func (m *opsModel) vmCell(opc, vk *types.Const) *opsCell {
 	if c, ok := m.vmMemo[key]; ok {
 		return c
 	}
-	cfg := &opsCfg{g: m.g, recv: m.vmRecv, maxDepth: 3, trigger: m.trigger,
-		nodeDims: map[*types.TypeName]*types.Const{m.opcode.Type.Obj(): opc},
-		opndDims: map[*types.TypeName]*types.Const{m.rvk.Type.Obj(): vk},
-		isPop:    func(f *types.Func) bool { return m.pops[f] }}
+	cfg := &opsCfg{g: m.g, recv: m.vmRecv, maxDepth: 6, trigger: m.trigger,
+		inlineAlways: func(f *types.Func) bool { return m.popping[f] },
+		nodeDims:     map[*types.TypeName]*types.Const{m.opcode.Type.Obj(): opc},
+		opndDims:     map[*types.TypeName]*types.Const{m.rvk.Type.Obj(): vk},
+		isPop:        func(f *types.Func) bool { return m.pops[f] }}
 	var instrT types.Type
 	if m.g.instrIf != nil {
 		instrT = m.g.instrIf.Type()
@@ -729,10 +840,16 @@ func (m *opsModel) extractInterpreter() {
 				continue
 			}
 			for _, op := range fm.aOp.Consts {
-				cfg := &opsCfg{g: m.g, recv: m.intRecv, maxDepth: 4, trigger: m.trigger, primaryOnly: true,
+				cfg := &opsCfg{g: m.g, recv: m.intRecv, maxDepth: 6, trigger: m.trigger, primaryOnly: true,
 					nodeDims: map[*types.TypeName]*types.Const{fm.aOp.Type.Obj(): op},
 					opndDims: map[*types.TypeName]*types.Const{m.ivk.Type.Obj(): ik, m.typeKind.Type.Obj(): tk}}
-				paths, ok := m.g.walk(cfg, fm.intFn, map[types.Object]opsVal{node: {k: ovNode, nodeT: fm.aNode.Type()}}, 0, 0)
+				nodeT := fm.aNode.Type()
+				if fm.intDisp {
+					nodeT = m.g.exprIfs[1].Type()
+					cfg.nodeDims[m.exprKindA.Type.Obj()] = fm.nodeK
+					cfg.maxDepth++
+				}
+				paths, ok := m.g.walk(cfg, fm.intFn, map[types.Object]opsVal{node: {k: ovNode, nodeT: nodeT}}, 0, 0)
 				fm.interp[[2]string{ik.Name(), op.Name()}] = &opsCell{paths: paths, ok: ok, pos: fm.intFn.Pos()}
 			}
 		}
